@@ -180,7 +180,10 @@ def handle (line : String) : String :=
     let hot := hotOf g addrs
     " ".intercalate (levels.map fun l => s!"L{l}:[" ++ showQuads (snapLevel lineIntersects g hot seg l) ++ "]")
   | "kmp" :: rest =>
-    match kmpDeduplicate (toPs (parseInts rest)) with
+    -- hypothesis `KmpRangesForward` (Proofs/NoTwice.lean) evaluated on this ring: a range running backwards answers differently from any implementation answer
+    let ring := toPs (parseInts rest)
+    if !rangesForwardB ring then "model-hypothesis-KmpRangesForward-fails: a range recorded for RemoveSequences runs backwards" else
+    match kmpDeduplicate ring with
     | .ok r => "ok " ++ showRing r
     | .error e => "panic " ++ e
   | "split" :: o :: nflag :: rest =>
